@@ -13,7 +13,9 @@ CONTENTS = [b"one\n", b"two two\n", b"3", b"", b"four-four-four-four\n", b"\x00\
             # same lengths as others above: a rewrite that changes neither size nor (within the second of the last run) mtime
             b"1ne\n", b"ONE\n", b"TWO two\n", b"4",
             # block-multiple lengths ending in (or made of) zero blocks: a copy that keeps files sparse must still deliver every byte
-            bytes(range(256)) * 256 + b"\x00" * 65536, b"\x00" * 131072, b"\x00" * 65536 + b"tail" + b"\x00" * 65532 + b"\x00" * 65536]
+            bytes(range(256)) * 256 + b"\x00" * 65536, b"\x00" * 131072, b"\x00" * 65536 + b"tail" + b"\x00" * 65532 + b"\x00" * 65536,
+            # sizes at a power-of-two boundary and one byte to either side (a scan that treats "large" files differently: seed C06-L)
+            bytes(range(251)) * 4178 + b"x" * (1048576 - 251 * 4178), bytes(range(251)) * 4178 + b"y" * (1048575 - 251 * 4178), bytes(range(251)) * 4178 + b"z" * (1048577 - 251 * 4178)]
 PATHS = ["p", "q", "d/r", "d/e/s", "t.txt", "a b", "d.x"]
 # every random history also gets three names from this list (seed C06-D: a file name containing `..` made the archive
 # look tampered). None is a directory prefix of another or of PATHS; none ends in the reserved staging suffix.
@@ -369,6 +371,12 @@ def run(pid, tier, seed, rundir, model_run):
                    ("write", "A", ".copia/new", b"ONE\n"), ("bisync",), ("bisync",)])
     corpus.append([("write", "B", ".copia/commit.lock", b""), ("write", "A", ".copia/x", b"one\n"), ("write", "B", ".copia/y", b"3"), ("bisync",),
                    ("delete", "A", ".copia/y"), ("write", "B", ".copia/x", b"two two\n"), ("bisync",), ("bisync",)])
+    # (seed C02-L) a conflict copy C is itself edited on both sides (a conflict ON C), and later one side edits it again while the
+    # other restores C's ORIGINAL bytes: the loser of that conflict is kept under a name derived from C — never C itself
+    for orig in (b"one\n", b"two two\n"):
+        for again in (b"4", b"3", b"six" * 50):
+            corpus.append([("both", "p", b"one\n", b"two two\n"), ("bisync",), ("editcc0", "A", b"ONE\n"), ("editcc0", "B", b"TWO two\n"), ("bisync",),
+                           ("editcc0", "A", again), ("editcc0", "B", orig), ("bisync",), ("bisync",)])
     histories = [(h, "corpus") for h in corpus] + [(None, "random") for _ in range(n_hist)]
     for hi, (hops, hkind) in enumerate(histories):
         length = rng.range(2, 12)
@@ -387,6 +395,10 @@ def run(pid, tier, seed, rundir, model_run):
                 for opi, op in enumerate(hops):
                     tmt += 1
                     mt = (tmt * 7919) % 2_000_000_000 if run_variant == "mtime" else None
+                    if mt is None and pid == "C07" and (hi + opi) % 3 == 0:
+                        # a modification time AFTER the start of every run (a scan that distrusts "too fresh" files and leaves them
+                        # out makes a present file look absent — in no-base mode the other side's version is then copied over it)
+                        mt = 4_000_000_000 - tmt
                     if op[0] == "write":
                         h.write(op[1], op[2], op[3], mt); history_txt.append(f"write {op[1]} {op[2]} {op[3][:12]!r}")
                     elif op[0] == "delete":
@@ -395,6 +407,10 @@ def run(pid, tier, seed, rundir, model_run):
                         h.write("A", op[1], op[2], mt); h.write("B", op[1], op[3], mt); history_txt.append(f"write A,B {op[1]} {op[2][:8]!r}/{op[3][:8]!r}")
                     elif op[0] == "delboth":
                         h.delete("A", op[1]); h.delete("B", op[1]); history_txt.append(f"delete A,B {op[1]}")
+                    elif op[0] == "editcc0":
+                        if ccnames:
+                            # the FIRST conflict copy of the history (a later conflict on it produces further names)
+                            h.write(op[1], ccnames[0], op[2], mt); history_txt.append(f"write {op[1]} {ccnames[0]} {op[2][:8]!r}")
                     elif op[0] == "editcc":
                         if ccnames:
                             # the choice is a function of the history position, NOT of the generator state: the same history replayed
